@@ -8,7 +8,7 @@ PENDING = "unit not built yet in this session (planned in DESIGN.md section 5); 
 
 PROPS = {
     "C15": dict(
-        units=["u1_int", "u17_codegen"],
+        units=["u1_int", "u17_codegen", "u9_opt"],
         level="proof",
         level_text=("Every integer arithmetic arm of VmGreenThread::step (+ - * / % ^ and their immediate forms) and "
                     "checked_pow_int are cut from vm.rs on each run and verified by Verus, for all operand values and all "
@@ -26,7 +26,7 @@ PROPS = {
         assumptions=[],
     ),
     "C24": dict(
-        units=["u16_prelude", "u1_int"],
+        units=["u16_prelude", "u1_int", "u2_float", "u3_str", "u4a_ctrl"],
         level="proof",
         level_text=("Prelude Equal/Ord/Hash impls for bool, void and 2-4-tuples are cut from modules/prelude.abra by name on each run, "
                     "parsed by a subset parser mirroring parse.rs, symbolically evaluated, and each law (equivalence, le<=>not lt swapped, "
@@ -35,7 +35,8 @@ PROPS = {
                     "LessThanInt..EqualInt(Imm), proved by Verus to store exactly a<b, a<=b, a>b, a>=b, a==b over mathematical integers, "
                     "from which the order laws are immediate; `!=` is shown syntactically to be Equal followed by Not."),
         level_note=("Narrower than the statement: arrays (Equal/Hash) and Hash for string contain loops in Abra source and are not claimed; "
-                    "float and string comparison arms are covered by C16/C17's units. Trusted: U16's own parser/evaluator (refuses anything "
+                    "float comparison arms (one total order over all bit patterns, immediate forms included: Kani) and string comparison arms (lex order "
+                    "proved a total order: Verus) are the obligations of u2_float / u3_str tagged C24; bool == / not are u4a_ctrl's. Trusted: U16's own parser/evaluator (refuses anything "
                     "outside its subset; mutant self-test, cvc5 cross-check and differential test against the real CLI in the thorough tier), "
                     "Z3, Verus, impl selection/monomorphisation by the type checker. Syntactic obligations (C24.prelude.{int,float,string}.*_delegates, "
                     "C24.codegen.*) prove code shape, not values."),
@@ -44,7 +45,7 @@ PROPS = {
         assumptions=[],
     ),
     "C01": dict(
-        units=["u4v_stack", "u4a_ctrl", "u4_plumbing", "u1_int", "u3_str", "u5_array"],
+        units=["u4v_stack", "u4a_ctrl", "u4_plumbing", "u1_int", "u3_str", "u5_array", "u9_opt"],
         level="model_checking",
         level_text=("VM half of the property only: every arm of step() that the units cover is verified to run without panic, "
                     "out-of-bounds access, arithmetic overflow or wrong-tag read under its operand precondition (tags as the opcode "
@@ -52,7 +53,8 @@ PROPS = {
                     "errors, and to leave the stack exactly as its contract says (Return/ReturnVoid: caller depth restored whatever the "
                     "callee left). Stack/register helpers, stack/jump/constant/call arms, integer and string arms are Verus proofs for "
                     "stacks of any size; value encodings are loop-free Kani proofs over all bit patterns; heap-touching arms (struct, "
-                    "variant, closure, array) are Kani proofs on concrete small shapes (bounded)."),
+                    "variant, closure, array) are Kani proofs on concrete small shapes (bounded). The peephole optimizer's contracts (u9_opt: "
+                    "predicates, replace_*, windows - Verus over all opcodes) also count here: a rewrite that drops a push or mistypes an operand is an internal fault."),
         level_note=("Not decided: that the translator only emits code meeting each arm's operand precondition (typing of "
                     "translate_bytecode.rs; e.g. break/continue in operand position), dispatch in step(), arms not listed in the evidence "
                     "(float math intrinsics, StringFrom*, SpawnTask, Channel*, Panic, CallForeign). Trusted: Verus/Z3, Kani/CBMC, slicer and "
@@ -130,7 +132,7 @@ PROPS = {
         assumptions=[],
     ),
     "C16": dict(
-        units=["u2_float", "u17_codegen"],
+        units=["u2_float", "u17_codegen", "u9_opt"],
         level="proof",
         level_text=("Float arms of step() on the real vm.rs, Kani loop-free over all bit patterns of every operand: + - * (register and "
                     "immediate forms) apply the IEEE operator to (a, b) in that order and never stop; / stops with DivisionByZero exactly "
@@ -197,11 +199,12 @@ PROPS = {
         assumptions=[]),
     "C04": dict(
         units=["u11_lexer", "u13_named_args"], level="model_checking",
-        level_text=("Lexer and one resolver leaf only. No panic/overflow/out-of-bounds in scan_for_unescaped_delim, Lexer::handle_num, "
+        level_text=("Lexer and one resolver leaf only. Whole tokenize_file: exhaustive bounded execution of the verbatim lexer.rs on every text of <= 5 (7 thorough) "
+                    "atoms over a 21-atom alphabet (no panic, Eof last, spans ordered, only lexer diagnostics). No panic/overflow/out-of-bounds in scan_for_unescaped_delim, Lexer::handle_num, "
                     "process_escapes_into, the comment arm of tokenize_file, emit/emit_with_skipped for all inputs within the stated bounds (Kani on the "
                     "verbatim lexer.rs); the keyword table round-trips (complete); calculate_named_arg_order never panics on any of the 11,715 call shapes "
                     "of arity <= 3 (exhaustive bounded execution)."),
-        level_note=("NOT covered: tokenize_file's main loop and dispatch, Lexer::new, handle_multiline_string (CBMC exceeds 600 s at 2 chars), the parser, the "
+        level_note=("tokenize_file's main loop, Lexer::new and handle_multiline_string are covered only by the bounded enumeration (CBMC exceeds 600 s at 2 chars). NOT covered: the parser, the "
                     "rest of the resolver, the type checker and the exhaustiveness checker. Trusted: std stubs for String::push / Vec::push / count_chars; "
                     "pointer checks off (lexer.rs has no unsafe, checked each run)."),
         technique="Kani/CBMC bounded function-level verification of the verbatim lexer.rs (R6 stubs, one lifted arm, R7 copy for escapes) + exhaustive bounded execution of a resolver leaf",
@@ -230,7 +233,9 @@ PROPS = {
     "C33": dict(
         units=["u11_lexer"], level="model_checking",
         level_text=("Span units only: for emit/emit_with_skipped a token's span must equal [byte offset of its first char, byte offset after its last char) of the "
-                    "source, on inputs with multi-byte characters (<= 4-6 chars)."),
+                    "source, on inputs with multi-byte characters (<= 4-6 chars, Kani; open finding); the same postcondition on ASCII-only sources (Kani) and, for "
+                    "every ASCII text of <= 5 (7) atoms, the source text under each token's span is that token's text (exhaustive bounded execution of tokenize_file); "
+                    "numeric literals: span as long as the literal including `_` separators."),
         level_note=("The postcondition is derived from the byte-indexed consumers (Location::range into codespan, line_number_for_index). One known finding: "
                     "spans are char indices. Not covered: string-token spans, per-error-kind ranges in error.rs, parser/typechecker diagnostics."),
         technique="Kani/CBMC bounded verification of the verbatim lexer.rs + CLI replay",
